@@ -29,9 +29,11 @@ DelShapes == { [n |-> "absent", ok |-> TRUE], [n |-> "true", ok |-> TRUE], [n |-
 RecShapes == { [n |-> "absent", ok |-> TRUE], [n |-> "number", ok |-> TRUE], [n |-> "string", ok |-> FALSE] }
 PropShapes == { [n |-> "absent", ok |-> TRUE], [n |-> "empty", ok |-> TRUE], [n |-> "scalars", ok |-> TRUE],
                 [n |-> "arrays_nested", ok |-> TRUE], [n |-> "nested_entity", ok |-> TRUE],
+                [n |-> "empty_arrays", ok |-> TRUE], [n |-> "numbers", ok |-> TRUE],
+                [n |-> "array_of_entities", ok |-> TRUE],
                 [n |-> "array_instead_of_object", ok |-> FALSE], [n |-> "unknown_prefix_key", ok |-> FALSE] }
 RefShapes == { [n |-> "absent", ok |-> TRUE], [n |-> "empty", ok |-> TRUE], [n |-> "single", ok |-> TRUE],
-               [n |-> "array", ok |-> TRUE], [n |-> "number_value", ok |-> FALSE], [n |-> "array_with_number", ok |-> FALSE],
+               [n |-> "array", ok |-> TRUE], [n |-> "empty_array", ok |-> TRUE], [n |-> "number_value", ok |-> FALSE], [n |-> "array_with_number", ok |-> FALSE],
                [n |-> "object_value", ok |-> FALSE], [n |-> "unknown_prefix_value", ok |-> FALSE] }
 
 Pick(S, name) == CHOOSE x \in S : x.n = name
